@@ -200,8 +200,9 @@ def _iter_spec(rng: random.Random, name: str, maxlen: int = 8) -> dict:
     if name == "starmap" and rng.random() < 0.15:
         # argument "tuples" of other kinds: a dict (iterated over its KEYS, like any iterable), a string, a one-shot
         # iterator, a generator, a list - ``function(*item)`` whatever the item is
+        # (... or a record that offers BOTH iteration protocols: it is unpacked like ``function(*item)`` does - synchronously)
         pool = [["Dc", "a", 1, "b", 2], ["Dc", "x", 1], ["Dc"], ["Dc", 1, 2, 3, 4], "ab", "", ["It", 1, 2], ["Gn", 3],
-                ["L", 1, 2, 3], ["T"], ["T", 0]]
+                ["L", 1, 2, 3], ["T"], ["T", 0], ["Du", 1, 2], ["Du", 3], ["Du"]]
         return {"tool": name, "raw": True, "srcs": [raw_seq(rng, pool, min(maxlen, 5))], "fns": ["tup"], "params": {}}
     if name == "starmap":
         n = rng.randint(0, min(maxlen, 5))
@@ -358,6 +359,13 @@ def _agg_spec(rng: random.Random, name: str, maxlen: int = 8) -> dict:
             spec["raw"] = True
             spec["srcs"] = [[rng.choice([["L", 1], ["T", 2], "ab", ["L"], ["T"]]) for _ in range(rng.randint(0, 4))]]
             spec["params"]["start"] = ["raw", ["L"]]
+        elif r < 0.5:
+            # the running total BECOMES text along the way (an item whose reflected addition answers with a str, a start
+            # object whose addition does): only a str START is refused by the builtin, nothing about later totals
+            spec["raw"] = True
+            spec["srcs"] = [[["Rs", "w"]] + [rng.choice(["x", "y", ""]) for _ in range(rng.randint(0, 3))]]
+            if rng.random() < 0.4:
+                spec["params"]["start"] = ["raw", ["Rs", "s"]]
         elif r < 0.55:  # objects for which 0 + x is x itself and += works in place
             spec["raw"] = True
             spec["srcs"] = [[["V", rng.randrange(4)] for _ in range(rng.randint(0, 4))]]
